@@ -73,7 +73,7 @@ class FakeServer(BaseComponent):
 
 
 class Root(Controller):
-    def index(self, *a, **k):
+    def index(self, **k):          # exactly '/': other paths are answered 404 by the dispatcher
         return 'ok'
 
     def echo(self, *a, **k):
@@ -476,6 +476,8 @@ def run_case(case):
                         if e2[0] == 2:
                             app = e2[1]
                             break
+            # the application answered through an httperror event (the dispatcher's notfound ...): that forces close
+            app_via_error = any(rec[0] == 'httperror' and rec[1] in dispatched for rec in new)
             in_p, in_c, in_any, _ = membership(httpc, s)
             # bytes the connection's parser has been given since it was created (a new parser is created exactly when the
             # TLS test is consulted); compared with Model classify while short and while no fault is injected
@@ -494,7 +496,7 @@ def run_case(case):
                 poisoned.pop(n, None)
             steps.append({'head': head,'op': [kind, n] + ([o[2]] if kind == 'r' else []) + (['auto'] if kind == 'd' and len(o) > 2 else []),
                           'tag': o[3] if kind == 'r' and len(o) > 3 else '',
-                          'calls': Trace.calls, 'path': pa, 'app': app,
+                          'calls': Trace.calls, 'path': pa, 'app': app, 'app_err': app_via_error,
                           'effs': effs[:40], 'n_effs': len(effs), 'state': [in_p, in_c], 'anywhere': in_any, 'problems': problems,
                           'wrote': len(wbytes)})
             if stuck:
@@ -818,6 +820,31 @@ def cut(rng, data, maxcuts=2):
     return out
 
 
+def _fm(line, headers=(('Host', 'a'),), body=b''):
+    return (line + '\r\n' + ''.join('%s: %s\r\n' % h for h in headers) + '\r\n').encode('latin-1') + body
+
+
+FIRST_MESSAGES = [          # name, one complete message that the component (or the application) answers
+    ('guard-301-slashes', _fm('GET //a HTTP/1.1')), ('guard-301-dot', _fm('GET /./a HTTP/1.1')),
+    ('guard-301-dotdot', _fm('GET /a/../b HTTP/1.1')), ('guard-301-star', _fm('OPTIONS * HTTP/1.1')),
+    ('guard-301-keepalive', _fm('GET //a HTTP/1.1', (('Host', 'a'), ('Connection', 'keep-alive')))),
+    ('guard-301-http10', _fm('GET //a HTTP/1.0', (('Connection', 'keep-alive'),))),
+    ('guard-301-head', _fm('HEAD /a/../b HTTP/1.1')),
+    ('400-line', b'GARBAGE\r\n\r\n'), ('400-header', _fm('GET / HTTP/1.1', (('Host', 'a'), ('Bad Name', 'x')))),
+    ('400-nohost', _fm('GET / HTTP/1.1', ())), ('400-neg-length', _fm('POST /echo HTTP/1.1', (('Host', 'a'), ('Content-Length', '-1')))),
+    ('400-host-ctl', _fm('GET / HTTP/1.1', (('Host', 'a b'),))), ('400-head-header', _fm('HEAD / HTTP/1.1', (('Host', 'a'), ('NoColon', ''))).replace(b'NoColon: ', b'NoColon')),
+    ('404', _fm('GET /nothere HTTP/1.1')), ('404-keepalive', _fm('GET /nothere HTTP/1.1', (('Host', 'a'), ('Connection', 'keep-alive')))),
+    ('404-head', _fm('HEAD /nothere HTTP/1.1')),
+    ('505', _fm('GET / HTTP/2.0')), ('505-head', _fm('HEAD / HTTP/3.1')),
+    ('500-escape', _fm('GET /\\x HTTP/1.1')), ('500-length', _fm('POST /echo HTTP/1.1', (('Host', 'a'), ('Content-Length', 'abc')))),
+    ('500-host-port', _fm('GET / HTTP/1.1', (('Host', 'a:xx'),))),
+    ('500-app', _fm('POST /echo HTTP/1.1', (('Host', 'a'), ('Content-Type', '"\\ud800"'), ('Content-Length', '2')), b'hi')),
+    ('200', _fm('GET / HTTP/1.1')), ('200-head', _fm('HEAD / HTTP/1.1')), ('200-close', _fm('GET / HTTP/1.1', (('Host', 'a'), ('Connection', 'close')))),
+    ('200-http10', _fm('GET / HTTP/1.0', ())), ('200-post', _fm('POST /echo HTTP/1.1', (('Host', 'a'), ('Content-Length', '2')), b'hi')),
+    ('200-chunked', _fm('POST /echo HTTP/1.1', (('Host', 'a'), ('Transfer-Encoding', 'chunked')), b'2\r\nhi\r\n0\r\n\r\n')),
+]
+
+
 def cut_n(rng, data, k):
     pts = sorted(set(rng.randrange(1, len(data)) for _ in range(k)))
     out, prev = [], 0
@@ -919,6 +946,23 @@ class C14(Prop):
                 for off in [e for e in ends if e < chunked_tail_start(data)]:
                     cases.append({'secure': False, 'cls': 'truncate-' + kind, 'expect': 'incomplete',
                                   'ops': [['r', 0, l1(data[:off]), 'mut'], ['d', 0]]})
+        # bytes that follow EVERY kind of answer the component makes itself (and the application's), on the same socket: a strict
+        # prefix of a well-formed request must be waited for, the completed request must be handled as a message of its own
+        # (dispatched: it is well-formed and canonical), a malformed follow-up must be rejected as such
+        firsts = FIRST_MESSAGES if tier != 'quick' else rng.sample(FIRST_MESSAGES, 14)
+        for name, first in firsts:
+            nxt = req_bytes(rng.choice(['GET', 'HEAD']), rng.choice(['/', '/echo']), headers=[('Host', 'a')])
+            variants = [[(nxt, 'wf-last')], [(nxt[:1], 'wf-part'), (nxt[1:], 'wf-last')]]
+            if tier != 'quick' or rng.random() < 0.5:
+                k = rng.randint(2, len(nxt) - 1)
+                variants.append([(nxt[:k], 'wf-part'), (nxt[k:], 'wf-last')])
+                variants.append([(nxt[:k], 'wf-part')])
+                variants.append([(b'GARBAGE\r\n\r\n', 'mut')])
+            for v in variants:
+                ops = [['r', 0, l1(first), 'first']] + [['r', 0, l1(d), t] for d, t in v]
+                if rng.random() < 0.5:
+                    ops.append(['d', 0])
+                cases.append({'secure': False, 'cls': 'followup-' + name, 'expect': 'malformed' if v[0][1] == 'mut' else 'any', 'ops': ops})
         n = max(n, len(cases) + 400)
         while len(cases) < n:
             kind = rng.choice(MUTATIONS)
@@ -1039,7 +1083,7 @@ class C14(Prop):
         else:
             pa = '(Ret %s)' % ('PCanon' if s['path'] == 'canon' else 'PRedirect')
         xr = R('excreq', lambda v: 'tt')
-        ap = 'Raise' if s['app'] is None else '(Ret %s)' % N(s['app'])
+        ap = 'Raise' if s['app'] is None else '(Ret (%s, %s))' % (N(s['app']), b(s.get('app_err', False)))
         return '(mkA %s %s %s %s %s %s %s %s)' % (ssl, ex, er, rq, cl, pa, xr, ap)
 
     def model_term(self, case):
@@ -1192,6 +1236,15 @@ class C14(Prop):
                     return '%s: the response says close but the connection is not closed afterwards' % where
             if len(clo) > 1:
                 return '%s: closed %d times' % (where, len(clo))
+            if resp and not clo and s['state'][0]:
+                return ('stale-parser: %s: the message is answered (%d), the connection is left open, but the parser of the answered message is '
+                        'still registered for the connection: the next message will not be parsed afresh' % (where, resp[0][1]))
+            if s['tag'] == 'wf-part' and effs:
+                return ('answered-prefix: %s: a strict prefix of a well-formed request (%d bytes) is answered with %r instead of waited for' % (
+                    where, len(s['op'][2]), [e for e in effs if e[0] != 'X'][:3]))
+            if s['tag'] == 'wf-last' and (rej or not disp):
+                return ('followup-not-handled: %s: a complete well-formed request that follows an answered message on the same socket is %s' % (
+                    where, 'answered with a rejection %d of its own accord' % rej[0][1] if rej else 'neither dispatched nor answered'))
             if s['tag'] == 'mut' and case.get('expect') in ('malformed', 'incomplete'):
                 if disp:
                     return 'accepted-%s: %s: a request event is dispatched for a %s message (%s)' % (
